@@ -181,6 +181,118 @@ theorem medianFilter_generated_spec (fs ny nx data : Nat) (s0 : Store Val) (hd :
   rw [h1, h3]
   exact C10.medianBand_spec _ fs ny nx (s0.arr data) rfl rfl hodd hny hnx r c
 
+/-! ### the bilateral filter: `bilateral_kernel`, `filter_bilateral`, `BilateralFilter.filter_disparity`
+
+  The two Gaussians are UNINTERPRETED: `G kernel_size sigma` stands for `gauss_spatial_kernel(kernel_size, sigma)` (a table),
+  `N x sigma` for `normalized_gaussian(x, sigma)`.  What is proved is the wiring: the model's `Weights` are
+  `spatial := G win_width sigma_space`, `range := fun d => N d sigma_color`, the centre is the window cell
+  `(offset, offset)` with `offset = win_width / 2`, `win_width` is T8's formula. -/
+
+/-- the weights the source wires together -/
+def sourceWeights (G : Nat → Rat → Nat → Nat → Rat) (N : Rat → Rat → Rat) (w : Nat) (sigmaSpace sigmaColor : Rat) :
+    Weights := ⟨G w sigmaSpace, fun d => N d sigmaColor⟩
+
+/-- **`bilateral_kernel` regenerated = model**, on every window: `nansum(windows·weights) / nansum(weights)` with
+    `weights = table · N(windows − windows[offset, offset], sigma_color)` -/
+theorem bilateralKernel_generated (N : Rat → Rat → Rat) (w : Nat) (K : Nat → Nat → Rat) (sc : Rat) (off : Nat)
+    (win : Nat → Nat → Val) :
+    Generated.KernelsFilter.bilateralKernel N w K sc off win = Filter.bilateralKernel ⟨K, fun d => N d sc⟩ w off win := by
+  unfold Generated.KernelsFilter.bilateralKernel Filter.bilateralKernel
+  simp only [nandiv, nansumW]
+  rfl
+
+/-- **`filter_bilateral` regenerated = model.**  Fresh result holding the model's `bilateralFilter` of the input's
+    content for the window width, offsets, chunk literals and weight wiring read in the source; nothing else written. -/
+theorem filterBilateral_generated (G : Nat → Rat → Nat → Nat → Rat) (N : Rat → Rat → Rat) (ss sc : Rat)
+    (ny nx data : Nat) (s0 : Store Val) (hd : data < s0.next) :
+    (Generated.KernelsFilter.filterBilateral G N ss sc ny nx data s0).2 = s0.next
+    ∧ (Generated.KernelsFilter.filterBilateral G N ss sc ny nx data s0).1.next = s0.next + 1
+    ∧ (Generated.KernelsFilter.filterBilateral G N ss sc ny nx data s0).1.arr s0.next
+        = Filter.bilateralFilter (Generated.Blocks.bilateral (Filter.winWidth ny nx ss))
+            (sourceWeights G N (Filter.winWidth ny nx ss) ss sc) (Filter.winWidth ny nx ss) ny nx (s0.arr data)
+    ∧ ∀ k, k ≠ s0.next → (Generated.KernelsFilter.filterBilateral G N ss sc ny nx data s0).1.arr k = s0.arr k := by
+  have hne : s0.next ≠ data := by omega
+  have hne' : data ≠ s0.next := by omega
+  unfold Generated.KernelsFilter.filterBilateral
+  simp only [copy_snd, C10.source_bilateral_window]
+  rw [blockedSt_eq _ _ _ _ hne]
+  refine ⟨by simp, by simp [Store.maskFill], ?_, ?_⟩
+  · simp only [Store.maskFill, set_arr_self, copy_arr_new, copy_arr_old _ _ hne']
+    unfold Filter.bilateralFilter sourceWeights
+    funext r c
+    simp only [maskOf, View.rows, View.cols]
+    by_cases hn : (s0.arr data r c).isNan = true
+    · simp [hn]
+    · simp only [hn, Bool.false_eq_true, if_false]
+      rw [show (windowFnKernel (Generated.KernelsFilter.bilateralKernel N (Filter.winWidth ny nx ss)
+            (G (Filter.winWidth ny nx ss) ss) sc (Filter.winWidth ny nx ss / 2)) (s0.arr data))
+          = (fun i j => Filter.bilateralKernel ⟨G (Filter.winWidth ny nx ss) ss, fun d => N d sc⟩
+              (Filter.winWidth ny nx ss) (Filter.winWidth ny nx ss / 2) (fun a b => s0.arr data (i + a) (j + b))) from by
+        funext i j
+        exact bilateralKernel_generated N _ _ sc _ _]
+  · intro k hk
+    simp only [Store.maskFill, set_arr_ne _ hk, copy_arr_old _ _ hk]
+
+/-- **`BilateralFilter.filter_disparity` regenerated = model.** -/
+theorem filterDisparityBilateral_generated (G : Nat → Rat → Nat → Nat → Rat) (N : Rat → Rat → Rat) (ss sc : Rat)
+    (ny nx : Nat) (flags : Nat → Nat → Nat) (dm : Nat) (s0 : Store Val) (hd : dm < s0.next) :
+    (Generated.KernelsFilter.filterDisparityBilateral G N ss sc ny nx flags dm s0).arr dm
+        = Filter.bilateralFilterDisparity (Generated.Blocks.bilateral (Filter.winWidth ny nx ss))
+            (sourceWeights G N (Filter.winWidth ny nx ss) ss sc) Generated.Constants.PANDORA_MSK_PIXEL_INVALID
+            (Filter.winWidth ny nx ss) ny nx flags (s0.arr dm)
+    ∧ ∀ k, k < s0.next → k ≠ dm →
+        (Generated.KernelsFilter.filterDisparityBilateral G N ss sc ny nx flags dm s0).arr k = s0.arr k := by
+  have hne : dm ≠ s0.next := by omega
+  unfold Generated.KernelsFilter.filterDisparityBilateral
+  simp only [copy_snd]
+  generalize hs2 : ((s0.copy dm).1.maskFill s0.next
+      (flagMask true flags Generated.Constants.PANDORA_MSK_PIXEL_INVALID) Val.nan) = s2
+  have hnext2 : s2.next = s0.next + 1 := by rw [← hs2]; rfl
+  have hm : s2.arr s0.next = Filter.masked Generated.Constants.PANDORA_MSK_PIXEL_INVALID flags (s0.arr dm) := by
+    rw [← hs2]
+    simp only [Store.maskFill, set_arr_self, copy_arr_new]
+    funext r c
+    simp only [Filter.masked, Filter.maskCell, flagMask_true]
+  have hold : ∀ k, k ≠ s0.next → s2.arr k = s0.arr k := by
+    intro k hk
+    rw [← hs2]
+    simp only [Store.maskFill, set_arr_ne _ hk, copy_arr_old _ _ hk]
+  obtain ⟨h1, _, h3, h4⟩ := filterBilateral_generated G N ss sc ny nx s0.next s2 (by omega)
+  rw [hnext2] at h1 h3 h4
+  refine ⟨?_, ?_⟩
+  · simp only [Store.maskCopy, set_arr_self, h1, h3, hm]
+    rw [h4 dm (by omega), hold dm hne]
+    unfold Filter.bilateralFilterDisparity
+    funext r c
+    simp [maskOf, maskNot, isfinite, Val.isNum]
+  · intro k hk hkd
+    simp only [Store.maskCopy, set_arr_ne _ hkd]
+    rw [h4 k (by omega), hold k (by omega)]
+
+/-- **C10 for the regenerated bilateral `filter_disparity`**: `invalid_disp_unchanged`, `edge_untouched`,
+    `is_weighted_mean` (tolerance 0) and `between_window_min_max` hold at every pixel, for every pair of functions
+    standing for the two Gaussians whose values met in the pixel's window are non-negative with a positive total
+    (`wfWeightsAt` — true of Gaussians: the pixel itself weighs `G(centre)·N(0) > 0`). -/
+theorem filterDisparityBilateral_spec (G : Nat → Rat → Nat → Nat → Rat) (N : Rat → Rat → Rat) (ss sc : Rat)
+    (ny nx : Nat) (flags : Nat → Nat → Nat) (dm : Nat) (s0 : Store Val) (hd : dm < s0.next)
+    (hw : 0 < Filter.winWidth ny nx ss) (r c : Nat)
+    (hwf : ∀ ctr, masked Generated.Constants.PANDORA_MSK_PIXEL_INVALID flags (s0.arr dm) r c = .num ctr →
+      wfWeightsAt (sourceWeights G N (Filter.winWidth ny nx ss) ss sc) (Filter.winWidth ny nx ss)
+        (fun a b => masked Generated.Constants.PANDORA_MSK_PIXEL_INVALID flags (s0.arr dm)
+          (r - Filter.winWidth ny nx ss / 2 + a) (c - Filter.winWidth ny nx ss / 2 + b)) ctr = true) :
+    bilateralCellSpec (sourceWeights G N (Filter.winWidth ny nx ss) ss sc) 0
+      (masked Generated.Constants.PANDORA_MSK_PIXEL_INVALID flags (s0.arr dm)) (Filter.winWidth ny nx ss) ny nx r c
+      (s0.arr dm r c)
+      ((Generated.KernelsFilter.filterDisparityBilateral G N ss sc ny nx flags dm s0).arr dm r c) = true := by
+  rw [(filterDisparityBilateral_generated G N ss sc ny nx flags dm s0 hd).1]
+  have hny : Filter.winWidth ny nx ss ≤ ny := by unfold Filter.winWidth; omega
+  have hnx : Filter.winWidth ny nx ss ≤ nx := by unfold Filter.winWidth; omega
+  exact C10.source_bilateral_spec _ _ _ ny nx flags (s0.arr dm) hw hny hnx r c hwf
+
+/-- non-vacuity: with constant positive stand-ins for the Gaussians the weights met in a window are usable -/
+example : wfWeightsAt (sourceWeights (fun _ _ _ _ => 1) (fun _ _ => 1 / 2) 3 1 2) 3
+    (fun a b => if a = 1 ∧ b = 1 then .nan else .num ((a : Int) + 2 * (b : Int) : Int)) 3 = true := by decide +kernel
+
 /-! ### non-vacuity: a store with one map -/
 
 example : (0 : Nat) < (Store.init [Generated.KernelsFilter.goldenImg] Generated.KernelsFilter.goldenImg).next := by decide
